@@ -1029,6 +1029,14 @@ func runLifeCase(c cfg, seed uint64, o lifeOpts, keys map[string]struct{}) (eval
 				res.Finish() // the spinning engine would distort every later case of this process
 			} else {
 				res.Inconc("life %s: Run not returned after %.1fs (source %s), goroutines still moving", c, time.Since(t0).Seconds(), o.shutdownFrom)
+				// diagnosis aid: what the framework's goroutines are doing
+				var fw []string
+				for _, g := range strings.Split(d2, "\n\n") {
+					if strings.Contains(g, "panjf2000/gnet/v2.") && !strings.Contains(g, "zzverif/eng.") || strings.Contains(g, "gnet/v2.Run") || strings.Contains(g, "gnet/v2.(*engine)") {
+						fw = append(fw, g)
+					}
+				}
+				res.Note("life %s: framework goroutines while Run does not return (fired faults %d, shutdownFired %v, events %v): %s", c, vsys.NFired(), s.shutdownFired.Load(), mon.tail(6), trimDump(strings.Join(fw, "\n--\n")))
 			}
 			wg.Wait()
 			for _, p := range peers {
